@@ -298,6 +298,9 @@ fn scenario_inner() -> Vec<Op> {
         Op::WriteAll("/d/f".into(), b"x\ny".to_vec()),
         Op::MkfileM("/d/sub/g".into(), 0o600),
         Op::MkfileM("/exe".into(), 0o755),
+        // permission bits that differ between owner, group and other (a query looking at one class only shows)
+        Op::MkfileM("/d/gw".into(), 0o464),
+        Op::MkfileM("/d/gx".into(), 0o610),
         Op::Chmod("/d/f".into(), 0o444),
         Op::Symlink("/lf".into(), "/d/f".into()),
         Op::Symlink("/ld".into(), "/d".into()),
@@ -311,7 +314,7 @@ pub fn run(c: &Ctx) {
     c.set_rule("(a) matrix: from a fixed mixed scenario (dirs, files with different modes/owners/bytes, link to file, link to dir, dangling link, cwd below root) every call form of the finite alphabet (every trait method incl. builder variants, builders executed after a cwd change, and handles) on every path of the scenario (absolute and cwd-relative; ordered pairs for copy/move/symlink) is executed on a plain Memfs, through Vfs::Memfs(..) and through Memfs::upcast(): identical result (value / error kind) and identical dump-derived tree after every call; every Entry accessor (path, alt, rel, *_buf, file_name, follow(true/false/twice), following, is_*, mode, upcast, clone) of the inner MemfsEntry vs the VfsEntry. (b) the same matrix on the real-filesystem backend: the Stdfs unit struct (trait impl) vs Vfs::Stdfs on twin tmpfs directories, results and std::fs-observed trees equal; plus every program of length 4 (quick) / 5 (thorough) over {open append x2 handles, open write, write x2, flush, drop x2, read} on one file with a tree observation after every step (buffering inside the wrapper would show). (c) the C01 random histories (with persistent write/append handles) executed the three Memfs ways. Non-trivial = call whose result is not an error and not 'false' on at least one path (a mis-routed arm would differ); distinct by (scenario prefix, call).");
     c.assume("Stdfs twin runs use absolute paths inside a sandbox (set_cwd excluded: process-global)");
     let base = scenario();
-    let paths = ["/", "/d", "/d/f", "/d/sub", "/d/sub/g", "/exe", "/lf", "/ld", "/dang", "/nope", "f", "sub/g", "..", "../lf", "/d/new", "/new/deep"];
+    let paths = ["/d/gw", "/d/gx", "/", "/d", "/d/f", "/d/sub", "/d/sub/g", "/exe", "/lf", "/ld", "/dang", "/nope", "f", "sub/g", "..", "../lf", "/d/new", "/new/deep"];
     let mut cases: Vec<Vec<Op>> = vec![];
     for p in paths {
         for op in single_path_ops(p, true) {
@@ -366,7 +369,7 @@ pub fn run(c: &Ctx) {
     });
     c.note("matrix_cases", cases.len());
     // the same matrix for the real-filesystem backend: Stdfs vs Vfs::Stdfs on twin sandbox directories
-    let spaths = ["@", "@/d", "@/d/f", "@/d/sub", "@/d/sub/g", "@/exe", "@/lf", "@/ld", "@/nope", "@/d/new", "@/new/deep"];
+    let spaths = ["@/d/gw", "@/d/gx", "@", "@/d", "@/d/f", "@/d/sub", "@/d/sub/g", "@/exe", "@/lf", "@/ld", "@/nope", "@/d/new", "@/new/deep"];
     let mut twin: Vec<Op> = vec![];
     for p in spaths {
         twin.extend(single_path_ops(p, true).into_iter().filter(|o| !matches!(o, Op::SetCwd(_))));
